@@ -7,7 +7,7 @@ open AState
 macro "unfold_steps" hs:ident : tactic => `(tactic|
   simp only [step, stepBegin, stepRet, stepCdrop, stepMk, stepUpgrade, stepDetach, stepDrop, stepSignal,
     stepQuery, stepCbBegin, stepCbEnd, stepCbAbandon, stepCbPanic, stepVnew, stepWork, stepCtxSignal,
-    stepCtxTimer, stepCtxWeak, stepFire, stepTimerArm, stepTimerEnd, stepTickBegin, stepTime, stepCancel,
+    stepCtxTimer, stepCtxWeak, stepFire, stepTimerArm, stepTimerEnd, stepTickBegin, stepExtPush, stepExtBegin, stepTime, stepCancel,
     stepTaskPanic, stepTaskDone, stepStreamReady, stepStreamEnd, stepDeq, stepChanEnd, stepStreamEndTau,
     retEffect, beginWait, notifyEarly, toStopping, refreshTimers, stepQuiescent] at $hs:ident)
 
